@@ -4,6 +4,8 @@ import (
 	"archive/tar"
 	"bytes"
 	"crypto/sha256"
+	"path"
+	"sort"
 	"fmt"
 	"io"
 	"os"
@@ -23,6 +25,7 @@ type hookState struct {
 	roHash   [32]byte
 	roRows   string
 	roSeen   bool
+	prevTree []string
 }
 
 // oracleHook returns the per-call hook that evaluates the property oracles which need the
@@ -42,6 +45,10 @@ func oracleHook(o fsOpts, dir string) func(i int, s *h.Session, st *h.Step) {
 				msgs = oracleC05(hs, s, st)
 			case "C15":
 				msgs = oracleC15(hs, s, st)
+			case "C12":
+				msgs = oracleC12(hs, s, st)
+			case "C13":
+				msgs = oracleC13(hs, s, st)
 			}
 			for _, m := range msgs {
 				st.OracleMsgs = append(st.OracleMsgs, p+"\x00"+m)
@@ -335,6 +342,220 @@ func oracleC15(hs *hookState, s *h.Session, st *h.Step) []string {
 		if st.Res != "permission" && st.Res != "isdir" && st.Res != "badhandle" {
 			msgs = append(msgs, fmt.Sprintf("write through a handle of a read-only instance returned %s", st.Res))
 		}
+	}
+	return msgs
+}
+
+// ---------------------------------------------------------------------------------------
+// C12: a successful RemoveAll / Rename changes exactly the named subtree of the visible tree;
+// renaming a directory into its own subtree is refused.
+func treeMap(lines []string) map[string]string {
+	m := map[string]string{}
+	for _, l := range lines {
+		f := strings.SplitN(l, "\t", 3)
+		if len(f) == 3 {
+			m[h.DecName(f[1])] = f[2]
+		}
+	}
+	return m
+}
+
+func within(d, p string) bool {
+	if d == "/" {
+		return true
+	}
+	return p == d || strings.HasPrefix(p, d+"/")
+}
+
+func oracleC12(hs *hookState, s *h.Session, st *h.Step) []string {
+	defer func() { hs.prevTree = st.Tree }()
+	var msgs []string
+	if st.Res != "ok" || st.Tree == nil || hs.prevTree == nil {
+		return nil
+	}
+	prev, cur := treeMap(hs.prevTree), treeMap(st.Tree)
+	want := map[string]string{}
+	switch st.Call.Method {
+	case "removeall":
+		d := path.Clean("/" + h.DecName(st.Call.Args[0]))
+		for p, v := range prev {
+			if !within(d, p) {
+				want[p] = v
+			}
+		}
+	case "rename":
+		a := path.Clean("/" + h.DecName(st.Call.Args[0]))
+		b := path.Clean("/" + h.DecName(st.Call.Args[1]))
+		if strings.HasPrefix(b, a+"/") {
+			return []string{fmt.Sprintf("renaming %q into its own subtree %q was not refused", a, b)}
+		}
+		if a == b {
+			want = prev
+			break
+		}
+		for p, v := range prev {
+			switch {
+			case within(a, p):
+				want[b+strings.TrimPrefix(p, a)] = v
+			case within(b, p):
+				// replaced target
+			default:
+				want[p] = v
+			}
+		}
+	default:
+		return nil
+	}
+	keys := map[string]bool{}
+	for k := range want {
+		keys[k] = true
+	}
+	for k := range cur {
+		keys[k] = true
+	}
+	ks := []string{}
+	for k := range keys {
+		ks = append(ks, k)
+	}
+	sort.Strings(ks)
+	for _, k := range ks {
+		w, okw := want[k]
+		c, okc := cur[k]
+		switch {
+		case okw && !okc:
+			msgs = append(msgs, fmt.Sprintf("%s: entry %q is gone although it should have been kept/moved there", st.Call.Method, k))
+		case !okw && okc:
+			msgs = append(msgs, fmt.Sprintf("%s: entry %q is present although it should have been removed/moved away", st.Call.Method, k))
+		case w != c:
+			msgs = append(msgs, fmt.Sprintf("%s: entry %q was altered", st.Call.Method, k))
+		}
+		if len(msgs) >= 2 {
+			break
+		}
+	}
+	return msgs
+}
+
+// ---------------------------------------------------------------------------------------
+// C13: the entries reachable by listing from the root are exactly the live entries; every
+// entry's parent is a directory; listings contain each child once; limited listings return at
+// most n; every listed name stats/opens with matching kind and size.
+func oracleC13(hs *hookState, s *h.Session, st *h.Step) []string {
+	var msgs []string
+	if st.TreeE != "" {
+		return []string{"walking the tree through the API failed: " + st.TreeE}
+	}
+	if st.Tree == nil {
+		return nil
+	}
+	tree := treeMap(st.Tree)
+	// live entries according to the table (plain rows; symlink rows are keyed by their target)
+	root := ""
+	for _, l := range st.Obs {
+		if strings.HasPrefix(l, "root\t") {
+			root = h.DecName(strings.Split(l, "\t")[1])
+		}
+	}
+	live := map[string]bool{}
+	for _, l := range st.Obs {
+		if !strings.HasPrefix(l, "row\t") {
+			continue
+		}
+		f := strings.Split(l, "\t")
+		if f[9] == "1" || f[2] != "-" {
+			continue
+		}
+		name := h.DecName(f[1])
+		live[path.Clean("/"+strings.TrimPrefix(name, root))] = true
+	}
+	for p := range live {
+		if _, ok := tree[p]; !ok {
+			msgs = append(msgs, fmt.Sprintf("live entry %q is not reachable by listing directories from the root", p))
+			break
+		}
+	}
+	seen := map[string]int{}
+	for _, l := range st.Tree {
+		seen[strings.SplitN(l, "\t", 3)[1]]++
+	}
+	for k, n := range seen {
+		if n > 1 {
+			msgs = append(msgs, fmt.Sprintf("entry %q is listed %d times", h.DecName(k), n))
+			break
+		}
+	}
+	for p, v := range tree {
+		if !live[p] {
+			msgs = append(msgs, fmt.Sprintf("listing shows %q which is not a live entry", p))
+			break
+		}
+		if p != "/" {
+			pv, ok := tree[path.Dir(p)]
+			if !ok || !strings.HasPrefix(pv, "d\t") {
+				msgs = append(msgs, fmt.Sprintf("entry %q has no directory parent", p))
+				break
+			}
+		}
+		// stat agrees with the listing
+		info, err := s.E.FS.Stat(p)
+		if err != nil {
+			msgs = append(msgs, fmt.Sprintf("listed entry %q cannot be stat-ed: %v", p, err))
+			break
+		}
+		kind := "f"
+		if info.IsDir() {
+			kind = "d"
+		}
+		f := strings.Split(v, "\t")
+		if f[0] != kind || (kind == "f" && f[1] != fmt.Sprint(info.Size())) {
+			msgs = append(msgs, fmt.Sprintf("listing and stat disagree on %q (listing %s/%s, stat %s/%d)", p, f[0], f[1], kind, info.Size()))
+			break
+		}
+	}
+	// count-limited listings of every directory
+	for p, v := range tree {
+		if !strings.HasPrefix(v, "d\t") {
+			continue
+		}
+		full := 0
+		for q := range tree {
+			if q != "/" && path.Dir(q) == p {
+				full++
+			}
+		}
+		for _, n := range []int{1, 2, 3} {
+			d, err := s.E.FS.Open(p)
+			if err != nil {
+				msgs = append(msgs, fmt.Sprintf("directory %q cannot be opened: %v", p, err))
+				break
+			}
+			infos, err := d.Readdir(n)
+			d.Close()
+			if err != nil {
+				msgs = append(msgs, fmt.Sprintf("Readdir(%d) of %q failed: %v", n, p, err))
+				break
+			}
+			wantN := n
+			if full < n {
+				wantN = full
+			}
+			if len(infos) > n {
+				msgs = append(msgs, fmt.Sprintf("Readdir(%d) of %q returned %d entries", n, p, len(infos)))
+			} else if len(infos) < wantN {
+				msgs = append(msgs, fmt.Sprintf("Readdir(%d) of %q returned %d entries although it has %d children", n, p, len(infos), full))
+			}
+			for _, i := range infos {
+				if _, ok := tree[path.Join(p, i.Name())]; !ok {
+					msgs = append(msgs, fmt.Sprintf("Readdir(%d) of %q returned %q which is not one of its children", n, p, i.Name()))
+				}
+			}
+		}
+		if len(msgs) > 0 {
+			break
+		}
+	}
+	if len(msgs) > 2 {
+		msgs = msgs[:2]
 	}
 	return msgs
 }
